@@ -5,7 +5,7 @@
 #
 # Fixed work: 8 campaigns (4 from the seed corpus written by `c03 --dump-fuzz-seeds`, 4 from an empty
 # corpus), each `-runs=N -seed=<derived>` in a fresh corpus directory, all in parallel.
-# quick: 15 000 runs per campaign; thorough: 1 500 000 (seeded) / 750 000 (empty).
+# quick: 15 000 runs per campaign; thorough: 1 000 000 (seeded) / 500 000 (empty).
 # Judges nothing: writes <out-dir>/summary.json (one record per campaign with its artifacts); `c03`
 # re-runs every artifact through its own oracle.
 # Exit 0 = campaigns ran; 3 = build failed; 4 = a campaign ended without finishing and without artifact.
@@ -52,7 +52,7 @@ campaign() { # $1 name $2 kind $3 runs
   printf '{"name":"%s","corpus_kind":"%s","runs_requested":%s,"runs":%s,"cov":%s,"ft":%s,"corpus_files":%s,"wall_s":%s,"exit":%s,"restarts":%s,"incomplete":%s,"artifacts":%s}\n' \
     "$name" "$kind" "$want" "$done_runs" "${cov:-0}" "${ft:-0}" "$(ls "$work" | wc -l)" "$(( $(date +%s) - started ))" "$code" "$attempt" "$incomplete" "$arts" > "$OUT/rec/$name.json"
 }
-if [ "$TIER" = quick ]; then RS=15000; RE=15000; else RS=1500000; RE=750000; fi
+if [ "$TIER" = quick ]; then RS=15000; RE=15000; else RS=1000000; RE=500000; fi
 RS=$((RS * SCALE / 100)); RE=$((RE * SCALE / 100))
 for i in 1 2 3 4; do campaign "seeded-$i" seeded "$RS" & done
 for i in 1 2 3 4; do campaign "empty-$i" empty "$RE" & done
